@@ -283,6 +283,35 @@ Theorem C12_views_agree_implicit_refuted : exists s, all_agree (all_views SrcNon
 Proof. exact views_agree_implicit_refuted. Qed.
 Print Assumptions C12_views_agree_implicit_refuted.
 
+(* ---- after a refresh, and after any number of further refreshes (refresh_chain: client, subject, scope, nonce kept,
+        expiries set anew from the provider's clock and the lifetimes): the views of the REFRESHED access token and
+        ID Token - refresh response, relying party, provider session, JWT access token, introspection, userinfo,
+        ID Token - are projections of the refreshed record; they agree, name the original client / subject / scope /
+        nonce, and all state the expiry `clock at the last refresh + access-token lifetime` *)
+Theorem C12_views_after_refresh : forall s l now at_life idt_life at_jwt,
+  let s' := refresh_chain s (l ++ [(now, at_life, idt_life)]) in
+  all_agree (all_views SrcToken SrcToken at_jwt s' now now) = true
+  /\ (forall v, In v (all_views SrcToken SrcToken at_jwt s' now now) -> projects s' v)
+  /\ v_client (view_rp SrcToken SrcToken s' now now) = Some (s_client s)
+  /\ v_sub (view_rp SrcToken SrcToken s' now now) = Some (s_sub s)
+  /\ v_scope (view_rp SrcToken SrcToken s' now now) = Some (s_scope s)
+  /\ v_nonce (view_rp SrcToken SrcToken s' now now) = s_nonce s
+  /\ v_at_exp (view_token_response s' now) = Some (now + at_life)%Z
+  /\ v_at_exp (view_rp SrcToken SrcToken s' now now) = Some (now + at_life)%Z
+  /\ v_at_exp (view_introspection s') = Some (now + at_life)%Z
+  /\ v_at_exp (view_jwt_access_token s') = Some (now + at_life)%Z
+  /\ v_at_exp (view_session SrcToken SrcToken s') = Some (now + at_life)%Z.
+Proof. exact views_after_refresh. Qed.
+Print Assumptions C12_views_after_refresh.
+
+Example C12_refresh_nonvacuous :
+  let s := mkSession (PS "c12-client") (PS "sub-1") [PS "openid"] (Some (PS "n-1")) 1700000600 1700000300 in
+  let s2 := refresh_chain s [(1700000037, 600, 300); (1700000078, 600, 300)]%Z in
+  s_at_exp s2 = 1700000678%Z /\ all_agree (all_views SrcToken SrcToken true s2 1700000078 1700000078) = true
+  (* a refresh response that states the REFRESH token's remaining life instead disagrees with every other view *)
+  /\ view_agree (mkView None None (Some [PS "openid"]) None (Some (1700000078 + 43200)%Z) None) (view_introspection s2) = false.
+Proof. repeat split; vm_compute; reflexivity. Qed.
+
 (* the relying party computes __expires_at from ITS clock: it is off by exactly the clock difference *)
 Theorem C12_rp_expiry_skew : forall asrc isrc s now_op now_rp, asrc <> SrcNone ->
   v_at_exp (view_rp asrc isrc s now_op now_rp) = Some (s_at_exp s + (now_rp - now_op))%Z.
